@@ -135,7 +135,25 @@ func genBatch(pc *propCfg, seed uint64, batchNo, n int, tier string) []*sdl.Prog
 			i += 2
 			continue
 		}
-		progs = append(progs, gen.Generate(ps, fmt.Sprintf("P%d", i), fam))
+		q := gen.Generate(ps, fmt.Sprintf("P%d", i), fam)
+		if pc.ID == "C10" {
+			// C10 keeps to what its two known findings describe (DESIGN 13.1, "not taken to C10"):
+			// no decorator substitutes, no look-ups from PostProcessBeforeInstantiation
+			for _, pr := range q.Procs {
+				var keep []*sdl.Rule
+				for _, ru := range pr.Rules {
+					if ru.Action == "lookup" && ru.At == sdl.CbBeforeInst {
+						continue
+					}
+					if sdl.IsDeco(ru.SubType) {
+						ru.SubType = ""
+					}
+					keep = append(keep, ru)
+				}
+				pr.Rules = keep
+			}
+		}
+		progs = append(progs, q)
 		i++
 	}
 	return progs
